@@ -225,7 +225,10 @@ theorem step_callHeights (env : C12.Env) (m : C12.Machine) (ci : C12.Input)
   | timeout s h r =>
     simp only [C12.Machine.step, C12.Machine.processTimeout]
     have ho := onTimeout_height env m s h r
-    exact processLoop_callHeights env m _ _ none ho.1 ho.2 (C12.onTimeout_noCommit env m s h r)
+    -- since cd6cea9 C12's `processTimeout` returns at once when `onTimeout*` ignored the timeout
+    split
+    · exact callHeights_quiet m _ [] ho.1 (by simp) (by simp)
+    · exact processLoop_callHeights env m _ _ none ho.1 ho.2 (C12.onTimeout_noCommit env m s h r)
   | sync p vs => exact absurd rfl (hci p vs)
   | wal e => exact absurd rfl (hw e)
 
